@@ -357,6 +357,33 @@ func cases(c *core.Ctx) []ccase {
 				y.collAssets = nil
 				out = append(out, y)
 			}
+			// (C2) several asset names / policies in the collateral: the return must
+			// give back every one of them (a comparison that only walks the return's
+			// entries, or only counts policies, accepts a per-policy subset)
+			if e.HasCollateralReturn() {
+				multi := []lg.Asset{lg.Tok(polP, "a", 5), lg.Tok(polP, "b", 7), lg.Tok(polQ, "c", 3)}
+				subs := []rv{
+					{"multi/exact", &ret{2_000_000, []lg.Asset{lg.Tok(polP, "a", 5), lg.Tok(polP, "b", 7), lg.Tok(polQ, "c", 3)}}},
+					{"multi/one-name-missing", &ret{2_000_000, []lg.Asset{lg.Tok(polP, "a", 5), lg.Tok(polQ, "c", 3)}}},
+					{"multi/other-name-missing", &ret{2_000_000, []lg.Asset{lg.Tok(polP, "b", 7), lg.Tok(polQ, "c", 3)}}},
+					{"multi/policy-missing", &ret{2_000_000, []lg.Asset{lg.Tok(polP, "a", 5), lg.Tok(polP, "b", 7)}}},
+					{"multi/one-quantity-short", &ret{2_000_000, []lg.Asset{lg.Tok(polP, "a", 5), lg.Tok(polP, "b", 6), lg.Tok(polQ, "c", 3)}}},
+					{"multi/only-one-entry", &ret{2_000_000, []lg.Asset{lg.Tok(polQ, "c", 3)}}},
+				}
+				for _, r := range subs {
+					t := base
+					t.family, t.fee, t.pct = "nonada/"+r.name, 400_000, 150
+					t.collCoins = []uint64{10_000_000}
+					t.collAssets = [][]lg.Asset{multi}
+					t.ret = r.r
+					out = append(out, t)
+					x := t
+					x.family += "/split"
+					x.collCoins = []uint64{5_000_000, 5_000_000}
+					x.collAssets = [][]lg.Asset{{lg.Tok(polP, "a", 5), lg.Tok(polQ, "c", 1)}, {lg.Tok(polP, "b", 7), lg.Tok(polQ, "c", 2)}}
+					out = append(out, x)
+				}
+			}
 			// (D) number of collateral inputs
 			for _, max := range []uint{3, 1, 0} {
 				for n := 0; n <= int(max)+2; n++ {
